@@ -5,7 +5,7 @@
    code did at each call: the value or the exception class, whether every is_awaiting flag was False again,
    and which Deferred objects were settled afterwards. *)
 From Coq Require Import List ZArith NArith Bool Arith.
-From Verif Require Import Model.WaitModel Run.Show.
+From Verif Require Import Gen.GenPartial Model.WaitModel Run.Show.
 Import ListNotations.
 Open Scope Z_scope.
 
@@ -41,6 +41,9 @@ Inductive obs :=
 (* one wait() call: start node, speculating?, observed outcome, all flags False afterwards?, settled flags *)
 Definition step := (nat * bool * obs * bool * list bool)%type.
 Definition wcase := (list nspec * list step)%type.
+
+(* the bound of the `seen` list as the source has it now *)
+Definition py_bound : nat := wait_seen_bound.
 
 Definition fuel_for (G : graph) : nat :=
   if (length G <=? 16)%nat then fuel_bound py_bound G else (4 * length G + 3000)%nat.
